@@ -13,7 +13,7 @@ use proptest::prelude::*;
 use sliding_features::View;
 
 fn pos_stream(tier: Tier) -> BoxedStrategy<Vec<Rat>> {
-    (gen::dyadic_scale(), 1usize..=24)
+    (gen::dyadic_scale_wide(), 1usize..=24)
         .prop_flat_map(move |(sc, n)| gen::stream(StreamCfg::new(n).positive().scale(sc).len(0, tier.pick(200, 300)).segs(8)))
         .boxed()
 }
